@@ -395,7 +395,7 @@ pub fn run(tier: Tier) -> i32 {
     }
 
     // (b) what core.rs calls: all lists of length <= 1 (quick) / <= 2 (thorough) with the listener's view of the peer
-    let core_len = tier.pick(1usize, 2usize);
+    let core_len = tier.pick(1usize, 3usize);
     for len in 0..=core_len {
         let lists = n.pow(len as u32);
         let r = sweep_dyn(lists * per_list, 256, Duration::from_secs(1200), workers, |i| {
